@@ -24,8 +24,9 @@ type Field struct {
 }
 
 type Index struct {
-	Cols   []string
-	Unique bool
+	Cols            []string
+	Unique          bool
+	CreatedNonEmpty bool // a unique index the engine let be created although documents existed
 }
 
 type Version struct {
